@@ -654,6 +654,238 @@ Proof.
       * intros j m [I|I] Fm; [subst; congruence|]. apply (D j m I Fm).
 Qed.
 End Commit.
+(* ---------- hypotheses added to the commit theorem ---------- *)
+(* only objects with an oid have a record *)
+Definition no_stray (t : tree) (st : list nat) (s : store V) : Prop :=
+  forall i, In i (ids V t) -> mem i st = false -> sget V s i = None.
+(* what the record of a stored, unchanged object refers to has an oid *)
+Definition refs_closed (t : tree) (p : pstate) : Prop :=
+  forall i n x, find_node V t i = Some n ->
+    mem i (p_stored p) = true -> mem i (p_changed p) = false ->
+    In x (refs V (getstate V (p_stored p) t n)) -> mem x (p_stored p) = true.
+(* the leaf embedded in the root's record (it has no oid) is not dumped on its own *)
+Definition dumps_ok (t : tree) (st : list nat) (seq : list nat) : Prop :=
+  forall i, In i seq -> forall r x items, t = Node r [(x, Leaf i items)] -> mem i st = true.
 
+Lemma refs_child st root i kids s c : In (s, c) kids ->
+  In (tid V c) (refs V (getstate V st root (Node i kids))) \/
+  (exists x l items, kids = [(x, Leaf l items)] /\ mem l st = false).
+Proof.
+  intros I.
+  assert (Q : In (tid V c) (map snd (map (fun sc => (fst sc, tid V (snd sc))) kids))).
+  { rewrite map_map. simpl. apply in_map_iff. exists (s, c). auto. }
+  destruct kids as [|[x [l items|j k2]] [|sc2 k'']]; 
+    try (left; cbv beta iota delta [getstate refs]; apply in_or_app; left; exact Q).
+  - destruct I.
+  - simpl. destruct (mem l st) eqn:M; [left|right; eauto].
+    destruct I as [I|[]]. inversion I; subst. simpl. auto.
+Qed.
+
+(* after a complete commit: every stored object of the tree has its current
+   record, and what that record refers to is stored *)
+Lemma commit_records t p seq s st' s' :
+  no_embed_below V true (p_stored p) t -> synced V t p s ->
+  no_stray t (p_stored p) s -> refs_closed t p -> dumps_ok t (p_stored p) seq ->
+  commit_seq V t seq (p_stored p) s = (st', s') ->
+  (forall x, In x (p_changed p) -> mem x seq = true) ->
+  (forall x, In x st' -> match sget V s' x with Some _ => true | None => false end = true) ->
+  (forall x, mem x (p_stored p) = true -> mem x st' = true) /\
+  no_stray t st' s' /\
+  forall i n, find_node V t i = Some n -> mem i st' = true ->
+    sget V s' i = Some (getstate V st' t n) /\
+    forall x, In x (refs V (getstate V st' t n)) -> mem x st' = true.
+Proof.
+  intros G HS H1 H2 H3 C C1 C2.
+  destruct (commit_seq_spec t seq _ s st' s' G H3 C) as (A & B & Cc & D).
+  split; auto. split.
+  { intros i Hi M. destruct (Cc i) as [E|(I & m & Fm & E)].
+    - rewrite E. apply H1; auto. destruct (mem i (p_stored p)) eqn:Q; auto.
+      rewrite (A _ Q) in M. discriminate.
+    - destruct (D i m I Fm) as (_ & X & _). congruence. }
+  intros i n F M.
+  destruct (find_some _ _ _ F) as [Sn Tn].
+  destruct (Cc i) as [E|(I & m & Fm & E)].
+  - pose proof (C2 i (proj1 (mem_In _ _) M)) as R. rewrite E in R.
+    destruct (mem i (p_stored p)) eqn:M0.
+    + destruct (mem i (p_changed p)) eqn:Ch.
+      * apply mem_In, C1, mem_In in Ch. destruct (D i n Ch F) as (X & _ & Y). auto.
+      * rewrite (B n Sn). split.
+        -- rewrite E. apply HS; auto.
+        -- intros x Hx. apply A. eapply H2; eauto.
+    + rewrite H1 in R; auto; [discriminate|].
+      subst i. eapply sub_ids; eauto. apply tid_in_ids.
+  - destruct (D i n I F) as (X & _ & Y). auto.
+Qed.
+Lemma all_reached t st :
+  NoDup (ids V t) -> no_embed_below V true st t ->
+  (forall i n, find_node V t i = Some n -> mem i st = true ->
+     forall x, In x (refs V (getstate V st t n)) -> mem x st = true) ->
+  forall m n, sub n m -> sub m t -> mem (tid V m) st = true ->
+    mem (tid V n) st = true \/ exists r x items, t = Node r [(x, Leaf (tid V n) items)].
+Proof.
+  intros N G R m n Snm. induction Snm as [m|n i kids s c I Snc IH]; intros Smt M.
+  - left; auto.
+  - pose proof (R i (Node i kids) (find_sub t _ N Smt) M) as Rf.
+    destruct (refs_child st t i kids s c I) as [Q|(x & l & items & E & Ml)].
+    + apply IH; [|apply Rf; auto].
+      eapply sub_trans; [|exact Smt]. eapply sub_kid; [exact I|apply sub_refl].
+    + subst kids. destruct I as [I|[]]. inversion I; subst c.
+      destruct (guard_sub _ _ _ G _ _ _ _ _ Smt eq_refl) as [[_ C]|C]; [|congruence].
+      apply sub_inv in Snc. destruct Snc as [Snc|(? & ? & ? & ? & Q & _)]; [|discriminate].
+      subst n. right. simpl. exists i, x, items. auto.
+Qed.
+
+Theorem commit_current_partial_sec :
+  forall (t : tree) (p : pstate) (seq : list nat) (s : store V),
+  Inv V ml mi t -> NoDup (ids V t) ->
+  no_embed_below V true (p_stored p) t ->
+  synced V t p s -> mem (tid V t) (p_stored p) = true ->
+  complete V t p seq s = true ->
+  no_stray t (p_stored p) s -> refs_closed t p -> dumps_ok t (p_stored p) seq ->
+  let '(p', s') := commit V t p seq s in
+  current V t (p_stored p') s' /\ no_embed_below V true (p_stored p') t /\
+  (forall i, In i (ids V t) -> mem i (p_stored p') = true \/
+             (exists r x items, t = Node r [(x, Leaf i items)])).
+Proof.
+  intros t p seq s _ N G HS HR HC H1 H2 H3.
+  unfold complete in HC. unfold commit.
+  destruct (commit_seq V t seq (p_stored p) s) as [st' s'] eqn:C. simpl p_stored.
+  apply andb_true_iff in HC. destruct HC as [C1 C2]. rewrite forallb_forall in C1, C2.
+  destruct (commit_records t p seq s st' s' G HS H1 H2 H3 C C1 C2) as (A & _ & R).
+  assert (G' : no_embed_below V true st' t) by (eapply guard_mono; eauto).
+  split; [|split; auto].
+  - intros i n F M. apply (R i n F M).
+  - intros i Hi. destruct (ids_sub _ _ Hi) as (n & Sn & Tn). subst i.
+    apply (all_reached t st' N G' (fun i n F M => proj2 (R i n F M)) t n Sn (sub_refl t)).
+    apply A. exact HR.
+Qed.
+(* the added hypotheses (and synced) hold again after the commit *)
+Theorem commit_keeps_sec :
+  forall (t : tree) (p : pstate) (seq : list nat) (s : store V),
+  no_embed_below V true (p_stored p) t -> synced V t p s ->
+  complete V t p seq s = true ->
+  no_stray t (p_stored p) s -> refs_closed t p -> dumps_ok t (p_stored p) seq ->
+  let '(p', s') := commit V t p seq s in
+  synced V t p' s' /\ no_stray t (p_stored p') s' /\ refs_closed t p'.
+Proof.
+  intros t p seq s G HS HC H1 H2 H3.
+  unfold complete in HC. unfold commit.
+  destruct (commit_seq V t seq (p_stored p) s) as [st' s'] eqn:C.
+  apply andb_true_iff in HC. destruct HC as [C1 C2]. rewrite forallb_forall in C1, C2.
+  destruct (commit_records t p seq s st' s' G HS H1 H2 H3 C C1 C2) as (A & B & R).
+  split; [|split; auto].
+  - intros i n F M _. apply (R i n F M).
+  - intros i n x F M _ Hx. apply (proj2 (R i n F M) x Hx).
+Qed.
 
 End Store.
+
+(* ---------- exported statements ---------- *)
+Theorem reader_sees :
+  forall (V : Type) (ml mi : nat) (t : tree V) (stored : list nat) (s : store V),
+  Inv V ml mi t -> NoDup (ids V t) ->
+  no_embed_below V true stored t -> current V t stored s ->
+  (forall i, In i (ids V t) -> mem i stored = true \/
+             (exists r x items, t = Node r [(x, Leaf i items)])) ->
+  let fuel := S (length (ids V t)) in
+  load_items V fuel s (tid V t) = contents V t /\
+  reader_iter V fuel s (tid V t) = contents V t /\
+  exists p, load V fuel s (tid V t) = Some p /\ inv_stored p.
+Proof. exact reader_sees_sec. Qed.
+
+(* C04_commit_partial plus three hypotheses (each one is necessary, see below):
+   no_stray, refs_closed, dumps_ok *)
+Theorem commit_current_partial :
+  forall (V : Type) (ml mi : nat) (t : tree V) (p : pstate) (seq : list nat) (s : store V),
+  Inv V ml mi t -> NoDup (ids V t) ->
+  no_embed_below V true (p_stored p) t ->
+  synced V t p s -> mem (tid V t) (p_stored p) = true ->
+  complete V t p seq s = true ->
+  no_stray V t (p_stored p) s -> refs_closed V t p -> dumps_ok V t (p_stored p) seq ->
+  let '(p', s') := commit V t p seq s in
+  current V t (p_stored p') s' /\ no_embed_below V true (p_stored p') t /\
+  (forall i, In i (ids V t) -> mem i (p_stored p') = true \/
+             (exists r x items, t = Node r [(x, Leaf i items)])).
+Proof. exact commit_current_partial_sec. Qed.
+
+Theorem commit_keeps :
+  forall (V : Type) (t : tree V) (p : pstate) (seq : list nat) (s : store V),
+  no_embed_below V true (p_stored p) t -> synced V t p s ->
+  complete V t p seq s = true ->
+  no_stray V t (p_stored p) s -> refs_closed V t p -> dumps_ok V t (p_stored p) seq ->
+  let '(p', s') := commit V t p seq s in
+  synced V t p' s' /\ no_stray V t (p_stored p') s' /\ refs_closed V t p'.
+Proof. exact commit_keeps_sec. Qed.
+
+(* ---------- each added hypothesis is necessary (V = Z, sizes 1 / 2) ---------- *)
+Definition commit_hyps (t : tree Z) (p : pstate) (seq : list nat) (s : store Z) : Prop :=
+  Inv Z 1 2 t /\ NoDup (ids Z t) /\ no_embed_below Z true (p_stored p) t /\
+  synced Z t p s /\ mem (tid Z t) (p_stored p) = true /\ complete Z t p seq s = true.
+Definition commit_concl (t : tree Z) (p : pstate) (seq : list nat) (s : store Z) : Prop :=
+  let '(p', s') := commit Z t p seq s in
+  current Z t (p_stored p') s' /\ no_embed_below Z true (p_stored p') t /\
+  (forall i, In i (ids Z t) -> mem i (p_stored p') = true \/
+             (exists r x items, t = Node r [(x, Leaf i items)])).
+Definition t1 : tree Z := Node 0%nat [(0, Leaf 1%nat [(1, 0)])].
+Definition t2 : tree Z := Node 0%nat [(0, Leaf 1%nat [(1, 0)]); (5, Leaf 2%nat [(5, 0)])].
+
+(* without dumps_ok: the root's embedded leaf is dumped after the root *)
+Theorem commit_needs_dumps_ok :
+  exists t p seq s, commit_hyps t p seq s /\ no_stray Z t (p_stored p) s /\ refs_closed Z t p /\
+                    ~ commit_concl t p seq s.
+Proof.
+  exists t1, (mkP [0%nat] [0%nat] []), [0; 1]%nat, [].
+  split; [|split; [|split]].
+  - split; [reflexivity|]. split; [repeat constructor; simpl; intuition discriminate|].
+    split; [simpl; auto|]. split; [|split; reflexivity].
+    intros i n F M Ch. destruct i; [discriminate Ch|discriminate M].
+  - intros i _ _. reflexivity.
+  - intros i n x F M Ch. destruct i; [discriminate Ch|discriminate M].
+  - unfold commit_concl. destruct (commit Z t1 _ _ _) as [p' s'] eqn:E.
+    vm_compute in E. inversion E; subst p' s'. intros (C & _).
+    specialize (C 0%nat t1 eq_refl eq_refl). vm_compute in C. discriminate.
+Qed.
+
+(* without no_stray: an object without oid already has a (stale) record *)
+Theorem commit_needs_no_stray :
+  exists t p seq s, commit_hyps t p seq s /\ refs_closed Z t p /\ dumps_ok Z t (p_stored p) seq /\
+                    ~ commit_concl t p seq s.
+Proof.
+  exists t2, (mkP [0%nat] [0%nat] []), [0%nat], [(1%nat, REmpty); (2%nat, REmpty)].
+  split; [|split; [|split]].
+  - split; [reflexivity|]. split; [repeat constructor; simpl; intuition discriminate|].
+    split; [simpl; auto|]. split; [|split; reflexivity].
+    intros i n F M Ch. destruct i; [discriminate Ch|discriminate M].
+  - intros i n x F M Ch. destruct i; [discriminate Ch|discriminate M].
+  - intros i _ r x items E. discriminate E.
+  - unfold commit_concl. destruct (commit Z t2 _ _ _) as [p' s'] eqn:E.
+    vm_compute in E. inversion E; subst p' s'. intros (C & _).
+    specialize (C 1%nat (Leaf 1%nat [(1, 0)]) eq_refl eq_refl). vm_compute in C. discriminate.
+Qed.
+
+(* without refs_closed: an up-to-date record refers to objects without oid *)
+Theorem commit_needs_refs_closed :
+  exists t p seq s, commit_hyps t p seq s /\ no_stray Z t (p_stored p) s /\ dumps_ok Z t (p_stored p) seq /\
+                    ~ commit_concl t p seq s.
+Proof.
+  exists t2, (mkP [0%nat] [] []), [], [(0%nat, RNode [(0, 1%nat); (5, 2%nat)] (Some 1%nat))].
+  split; [|split; [|split]].
+  - split; [reflexivity|]. split; [repeat constructor; simpl; intuition discriminate|].
+    split; [simpl; auto|]. split; [|split; reflexivity].
+    intros i n F M Ch. destruct i; [|discriminate M].
+    vm_compute in F. inversion F; subst n. reflexivity.
+  - intros i Hi M. simpl in Hi. destruct Hi as [<-|[<-|[<-|[]]]]; [discriminate M|reflexivity|reflexivity].
+  - intros i [].
+  - unfold commit_concl. destruct (commit Z t2 _ _ _) as [p' s'] eqn:E.
+    vm_compute in E. inversion E; subst p' s'. intros (_ & _ & C).
+    destruct (C 1%nat (or_intror (or_introl eq_refl))) as [M|(r & x & items & Q)];
+      [vm_compute in M; discriminate|discriminate Q].
+Qed.
+
+Print Assumptions commit_reload_refuted.
+Print Assumptions reader_sees.
+Print Assumptions commit_current_partial.
+Print Assumptions commit_keeps.
+Print Assumptions commit_needs_dumps_ok.
+Print Assumptions commit_needs_no_stray.
+Print Assumptions commit_needs_refs_closed.
